@@ -430,6 +430,42 @@ class Sim:
             self.stats["probe:pool_created_after_a_close"] += 1
         return True
 
+    def _op_bad_pool(self, step, ctx):
+        """C09: a negative pool size is rejected by the constructor and by the setter; nothing else changes."""
+        X = self.X
+        snaps = [self._snapshot(pc) for pc in self.pools]
+        v = step.get("v", -1)
+        self.stats["fault:rejected_request"] += 1
+        for cls in (self.pmod.TaskPool, self.pmod.SimpleTaskPool):
+            try:
+                if cls is self.pmod.SimpleTaskPool:
+                    cls(self._make_func(self.pools[0], "sync", "work"), pool_size=v)
+                else:
+                    cls(pool_size=v)
+            except ValueError:
+                pass
+            except Exception as e:
+                self.violate("C09", "negative_size_error", f"{cls.__name__}(pool_size={v}) raised {type(e).__name__}")
+            else:
+                self.violate("C09", "negative_size_accepted", f"{cls.__name__}(pool_size={v}) was accepted")
+        pc = self._pc(step)
+        if pc is not None and not pc.size_changed:
+            before = pc.pool.pool_size
+            try:
+                pc.pool.pool_size = v
+            except ValueError:
+                pass
+            except Exception as e:
+                self.violate("C09", "negative_size_error", f"pool_size={v} raised {type(e).__name__}")
+            else:
+                self.violate("C09", "negative_size_accepted", f"pool_size={v} was accepted by the setter")
+                pc.size_changed = True
+            if pc.pool.pool_size != before:
+                self.violate("C09", "negative_size_changed", f"rejected pool_size={v} changed pool_size from {before} to {pc.pool.pool_size}")
+        if [self._snapshot(pc) for pc in self.pools] != snaps:
+            self.violate("C09", "trace_left", f"rejected negative pool size changed observables of existing pools")
+        return True
+
     def _make_payload(self, tag, shape):
         # shape 0: no args; 1: positional; 2: keyword; 3: both
         args = ()
